@@ -49,7 +49,10 @@ func H_C19_round() {
 		}
 	}
 	cl := &vPingClient{fail: func(n int) bool { return n < 5 && pattern[n] }}
-	hc := NewHealthCheck(&config.HealthCheck{Interval: time.Minute, Timeout: time.Second}, cl).(*healthCheck)
+	// the configured interval may be shorter than one retry wait, shorter than the
+	// four retry waits of a failing round, or longer: the verdict does not depend on it
+	interval := [3]time.Duration{100 * time.Millisecond, 3500 * time.Millisecond, time.Minute}[choose("interval", 3)]
+	hc := NewHealthCheck(&config.HealthCheck{Interval: interval, Timeout: time.Second}, cl).(*healthCheck)
 	t0 := nowNs()
 	p, _ := expectPanic(func() { hc.performHealthCheck(context.Background()) })
 	assert(p == allFail, "the process is terminated exactly when five consecutive pings fail")
